@@ -596,6 +596,23 @@ func (x *FnCtx) resolveModItem(it *Expr, ec *EvalCtx) (modItem, error) {
 		if strings.HasPrefix(it.Name, "E_") {
 			return modItem{kind: "emap", ghost: "E." + it.Name[2:]}, nil
 		}
+		if strings.HasPrefix(it.Name, "H_") {
+			// H_<struct>_<field>: that field of every object of the struct type (whole field map)
+			parts := strings.SplitN(it.Name[2:], "_", 2)
+			if len(parts) == 2 {
+				if t := ec.typeByName(parts[0]); t != nil && isStruct(t) {
+					l := layoutOf(t)
+					for i := range l.Fields {
+						fi := &l.Fields[i]
+						if fi.Name == parts[1] {
+							x.heapGet(ec.cur.heap, fieldMap(fi), x.fieldMapSort(fi.T))
+							return modItem{kind: "emap", ghost: fieldMap(fi)}, nil
+						}
+					}
+				}
+			}
+			return modItem{}, fmt.Errorf("unknown field map %s", it.Name)
+		}
 		if strings.HasPrefix(it.Name, "$") {
 			return modItem{kind: "ghost", ghost: it.Name}, nil
 		}
@@ -1174,6 +1191,14 @@ func (x *FnCtx) frameParams(fr *Frame) map[string]TV {
 	for i, p := range fr.fn.Params {
 		if i < len(fr.params) {
 			ps[p.Name()] = TV{V: fr.params[i], T: p.Type()}
+		}
+	}
+	// captured variables of a closure verified on its own: the name denotes the pointer to the cell
+	for i, fv := range fr.fn.FreeVars {
+		if i < len(fr.binds) {
+			if t, ok := fr.binds[i].(*Term); ok {
+				ps[fv.Name()] = TV{V: t, T: fv.Type()}
+			}
 		}
 	}
 	return ps
